@@ -18,7 +18,7 @@ RULE = (
     "3-D; four padding words; with/without space after ':'; entries of face/volume_dimensions in the order of node_dimensions or shuffled; Conventions/conventions; ordinary and hostile dimension "
     "names incl. substrings of each other and of 'padding'; optionally contradicting COMODO attributes). Verdicts: axes "
     "and position->dimension mapping equal the spec; diff/interp on the parsed Grid equal the Grid built from the "
-    "explicit mapping; SGRID wins over COMODO when declared; user coords (the parsed axes, a subset, disjoint axes, a superset) + parsed coords are rejected. Class = "
+    "explicit mapping; SGRID wins over COMODO when declared; user coords (the parsed axes, a subset, disjoint axes, a superset) + parsed coords are rejected; after an in-place correction of the annotation (left <-> right) a second Grid(ds) on the same dataset object follows the corrected attributes. Class = "
     "(convention, kind, per-axis (positions or padding word), name style); non-trivial iff some axis has a non-center position."
 )
 REQUIRED_REACH = [
@@ -138,3 +138,26 @@ def run_case(ctx, desc):
                 ctx.violation("parsed-grid-computes-like-explicit", f"{op} along {a} to {to} differs between parsed and explicit Grid")
         except Exception as e:
             ctx.violation("parsed-grid-computes-like-explicit", f"{op} along {a} to {to} raised {type(e).__name__}: {str(e)[:150]}")
+    # the annotation corrected in place (a left coordinate that should have been a right one, padding high -> low) and the
+    # Grid built again from the very same dataset object: what is parsed is what the attributes say now
+    swap = {"left": "right", "right": "left"}
+    cand = [a for a, ax in spec.items() if any(p in swap for p in ax["pos"]) and not (set(ax["pos"]) >= {"left", "right"})]
+    if cand:
+        a = cand[desc["aseed"] % len(cand)]
+        spec2 = {b: {"n": ax["n"], "pos": ({swap.get(p, p): d for p, d in ax["pos"].items()} if b == a else dict(ax["pos"]))} for b, ax in spec.items()}
+        want2 = {b: dict(ax["pos"]) for b, ax in spec2.items()}
+        if desc["conv"] == "comodo":
+            for p, d in spec2[a]["pos"].items():
+                if p in swap:
+                    ds.variables[d].attrs["c_grid_axis_shift"] = 0.5 if p == "right" else -0.5
+        else:
+            ds.variables["grid"].attrs.update(conv.sgrid_attrs(spec2, desc["kind"], random.Random(desc["aseed"] + 1), desc.get("entry_order")))
+        ctx.judged(("re-annotated-in-place", desc["conv"], desc.get("kind")), True)
+        try:
+            g2 = Grid(ds, periodic=False)
+            got2 = {b: dict(ax.coords) for b, ax in g2.axes.items()}
+            if got2 != want2:
+                ctx.violation("parsed-topology-equals-spec", f"after the annotation of axis {a} was corrected in place on the same dataset object, Grid(ds) parsed {got2}, "
+                                                             f"the attributes now prescribe {want2}")
+        except Exception as e:
+            ctx.violation("annotated-dataset-parsed", f"Grid(ds) after an in-place correction of the annotation raised {type(e).__name__}: {str(e)[:200]}")
